@@ -169,6 +169,19 @@ pub fn c11(opts: &Opts, out: &mut Out, ped_labels: &[Vec<u8>]) {
             classes.insert((bits, cap));
         }
     }
+    // (1c) parameter sets overwritten in place (`clone_from`): the refreshed object is the source in every respect —
+    // sizes, vector generators, and the precomputed table the prover and verifier actually use
+    for ((n1, c1), (n2, c2)) in [((32usize, 2usize), (64usize, 1usize)), ((8, 4), (8, 8)), ((64, 1), (2, 16)), ((4, 4), (4, 4))] {
+        let mut a = fmrun::params(n1, c1, 1);
+        let b = fmrun::params(n2, c2, 2);
+        a.clone_from(&b);
+        let key = format!("clone_from: ({}, {}) refreshed from ({}, {})", n1, c1, n2, c2);
+        let same_gens = a.gi_base_iter().eq(b.gi_base_iter()) && a.hi_base_iter().eq(b.hi_base_iter()) && a.bit_length() == n2 && a.max_aggregation_factor() == c2 && a.g_bases() == b.g_bases() && a.h_base() == b.h_base();
+        out.oracle("C11:accessor-equals-derivation", same_gens, &key, "a parameter set refreshed with clone_from does not have the source's generators");
+        let (ta, ga, ha): (&Vec<FP>, Vec<&FP>, Vec<&FP>) = (&a.precomp().0, a.gi_base_iter().collect(), a.hi_base_iter().collect());
+        let order_ok = ta.len() == 2 * n2 * c2 && (0..n2 * c2).all(|i| &ta[2 * i] == ga[i] && &ta[2 * i + 1] == ha[i]);
+        out.oracle("C11:table-interleaved", order_ok, &key, "the precomputed table of a refreshed parameter set is not that of its generators");
+    }
     // (2) Pedersen generators: value generator = basepoint; blinding generators from the model-emitted labels
     for d in 1..=6usize {
         let pg = create_pedersen_gens_with_extension_degree(fmrun::deg(d));
